@@ -178,6 +178,81 @@ func cases() []cse {
 	return out
 }
 
+// marshalHistories: "the same Schema value always marshals to the same bytes" - also after other
+// Marshal calls, including calls that failed half-way through a nested "properties" object.
+// Every sequence of <= 3 operations on one goroutine; each successful operation must give its
+// initial result.
+func marshalHistories(r *ev.Run) {
+	p := func(order []string, names ...string) *jsonschema.Schema {
+		m := map[string]*jsonschema.Schema{}
+		for _, n := range names {
+			m[n] = &jsonschema.Schema{Type: "integer"}
+		}
+		return &jsonschema.Schema{Type: "object", Properties: m, PropertyOrder: order}
+	}
+	type op struct {
+		name string
+		mk   func() *jsonschema.Schema
+	}
+	ops := []op{
+		{"fails: duplicate order in a nested property after two listed ones", func() *jsonschema.Schema {
+			return &jsonschema.Schema{Properties: map[string]*jsonschema.Schema{"a": {}, "b": {}, "n": p([]string{"x", "x"}, "x", "y")}, PropertyOrder: []string{"a", "b", "n"}}
+		}},
+		{"fails: duplicate order in an unlisted nested property", func() *jsonschema.Schema {
+			return &jsonschema.Schema{Properties: map[string]*jsonschema.Schema{"a": {}, "c": {}, "zz": {Items: p([]string{"q", "q"}, "q")}}, PropertyOrder: []string{"c"}}
+		}},
+		{"fails: duplicate at the root", func() *jsonschema.Schema { return p([]string{"a", "a"}, "a", "b") }},
+		{"ok: three unlisted properties", func() *jsonschema.Schema { return p(nil, "a", "b", "c") }},
+		{"ok: one listed, two unlisted", func() *jsonschema.Schema { return p([]string{"b"}, "a", "b", "n") }},
+		{"ok: nested, order lists an absent name", func() *jsonschema.Schema {
+			return &jsonschema.Schema{Properties: map[string]*jsonschema.Schema{"a": p([]string{"zz", "y"}, "x", "y"), "x": {}}, PropertyOrder: []string{"x"}}
+		}},
+		{"ok: all listed, reversed", func() *jsonschema.Schema { return p([]string{"c", "b", "a"}, "a", "b", "c") }},
+	}
+	run := func(o op) string {
+		b, err := json.Marshal(o.mk())
+		if err != nil {
+			return "error"
+		}
+		return string(b)
+	}
+	initial := make([]string, len(ops))
+	for i, o := range ops {
+		initial[i] = run(o)
+	}
+	var seq []int
+	var rec func()
+	rec = func() {
+		if len(seq) > 0 {
+			names := make([]string, len(seq))
+			for i, k := range seq {
+				names[i] = ops[k].name
+			}
+			key := "Marshal history " + strings.Join(names, " ; ")
+			if r.OnlyKey == "" || r.OnlyKey == key {
+				for step, k := range seq {
+					if got := run(ops[k]); got != initial[k] {
+						r.Fail(key, map[string]any{"class": "Marshal output depends on earlier Marshal calls", "step": step, "initially": initial[k], "in_this_history": got})
+						break
+					}
+				}
+				r.Eval(1)
+				r.NontrivialN(1)
+			}
+		}
+		if len(seq) == 3 {
+			return
+		}
+		for k := range ops {
+			seq = append(seq, k)
+			rec()
+			seq = seq[:len(seq)-1]
+		}
+	}
+	rec()
+	r.Set("marshal_history_initial_results", initial)
+}
+
 func mkProps(ps []string) map[string]*jsonschema.Schema {
 	if ps == nil {
 		return nil
@@ -191,7 +266,7 @@ func mkProps(ps []string) map[string]*jsonschema.Schema {
 
 func Run(r *ev.Run) {
 	cs := cases()
-	r.Rule("property name sets of size<=4 over {a,b,c,d,é,\"\"} x every PropertyOrder that is a permutation of a subset, such a list with names absent from properties inserted at every position, or a list with one duplicate (present or absent name); plus every name set of size<=3 over 13 names whose JSON encoding sorts differently from the name (space, !, <, &, control characters, U+2028, quote, backslash, case) with no / empty / single-name orders; each at the root, nested under properties / items / $defs / allOf / anyOf / oneOf / not / array-form items / dependencies (schema form beside a string form) / patternProperties / dependentSchemas+then with an own order on both levels, and marshalled as a value inside map[string]Schema; duplicates also with nil and empty Properties. Oracle R5: key order read from the token stream = listed names that exist, in list order, then the rest ascending; a duplicate anywhere in the tree makes Marshal fail. Determinism: 20 marshals of every value (and of every schema For returns for the G-type catalogue, also around overridden embedded structs, 20 x For+Marshal) give identical bytes; the caller's PropertyOrder slice is unchanged afterwards. Non-trivial = every case (distinct by construction)")
+	r.Rule("property name sets of size<=4 over {a,b,c,d,é,\"\"} x every PropertyOrder that is a permutation of a subset, such a list with names absent from properties inserted at every position, or a list with one duplicate (present or absent name); plus every name set of size<=3 over 13 names whose JSON encoding sorts differently from the name (space, !, <, &, control characters, U+2028, quote, backslash, case) with no / empty / single-name orders; each at the root, nested under properties / items / $defs / allOf / anyOf / oneOf / not / array-form items / dependencies (schema form beside a string form) / patternProperties / dependentSchemas+then with an own order on both levels, and marshalled as a value inside map[string]Schema; duplicates also with nil and empty Properties. Oracle R5: key order read from the token stream = listed names that exist, in list order, then the rest ascending; a duplicate anywhere in the tree makes Marshal fail. Histories: every sequence of <=3 Marshal calls over 7 schemas (3 of which fail, two of them half-way through a nested properties object) gives each call its initial result. Determinism: 20 marshals of every value (and of every schema For returns for the G-type catalogue, also around overridden embedded structs, 20 x For+Marshal) give identical bytes; the caller's PropertyOrder slice is unchanged afterwards. Non-trivial = every case (distinct by construction)")
 	r.Assume("R5 is the documented rule of Schema.PropertyOrder", "map-iteration orders are explored in the instrumented build (C19 env part); here repetition only confirms")
 	r.Set("cases", len(cs))
 	type nest struct {
@@ -394,6 +469,7 @@ func Run(r *ev.Run) {
 			}
 		}
 	}
+	marshalHistories(r)
 	if r.OnlyKey == "" || true {
 		envrun.Explore(r, "ENV", "c19env", "env", 16)
 	}
